@@ -32,7 +32,7 @@ CfgF2(ck, spr, mb) ==
    spread |-> <<NoTab, Px3(spr, spr, spr), Px3(0, spr, 0)>>,
    coupon |-> <<NoTab, Z3, Z3>>, costl |-> <<NoTab, Z3, Z3>>, costs |-> <<NoTab, Z3, Z3>>,
    comm |-> <<CommOf(ck), CommOf("zero"), CommOf("zero")>>,
-   integer |-> TRUE, bidoffer |-> TRUE, D |-> 100000, DW |-> 200000]
+   integer |-> TRUE, bidoffer |-> TRUE, D |-> 100000, DW |-> 200000, paper |-> FALSE]
 
 \* N1: root{kid{a, b}, c}
 CfgN1(ck, spr) ==
@@ -44,7 +44,7 @@ CfgN1(ck, spr) ==
    coupon |-> <<NoTab, NoTab, Z3, Z3, Z3>>, costl |-> <<NoTab, NoTab, Z3, Z3, Z3>>,
    costs |-> <<NoTab, NoTab, Z3, Z3, Z3>>,
    comm |-> <<CommOf(ck), CommOf(ck), CommOf("zero"), CommOf("zero"), CommOf("zero")>>,
-   integer |-> TRUE, bidoffer |-> TRUE, D |-> 100000, DW |-> 200000]
+   integer |-> TRUE, bidoffer |-> TRUE, D |-> 100000, DW |-> 200000, paper |-> FALSE]
 
 C == CASE Which = "F2zero"  -> CfgF2("zero", 0, 1)
        [] Which = "F2fix"   -> CfgF2("fix", 2, 2)
